@@ -115,6 +115,8 @@ def build(c, fresh=False):
             md.options.update(op[1])
         elif op[0] == "core_disable":
             md.core.ruler.disable(op[1])
+        elif op[0] == "ruler2_disable":
+            md.inline.ruler2.disable(op[1])
         elif op[0] == "render_first":
             md.render(op[1])
         else:
